@@ -17,16 +17,19 @@ static bool reserved(const std::string& k) { static const char* pre[] = {"BITPIX
 static bool key_malformed(const std::string& k) {
   if (k.empty()) return true;
   if (k.size() <= 8) { for (char c : k) if (!(isupper((unsigned char)c) || isdigit((unsigned char)c))) return true; return false; }
-  for (char c : k) if (c == '=' || islower((unsigned char)c)) return true;
+  for (char c : k) if (c == '=' || islower((unsigned char)c) || (unsigned char)c < 0x20 || (unsigned char)c > 0x7E) return true;   // a FITS header is printable ASCII
+  if (k.front() == ' ' || k.back() == ' ') return true;   // FITS keyword names have no leading / trailing blanks (cfitsio strips them)
+  if (k.size() > 66) return true;                          // "HIERARCH " + key + "= ''" no longer fits on an 80-character card
   return false;
 }
-static size_t capacity(const std::string& k) { return k.size() <= 8 ? 68 : 80 - (13 + k.size()); }
+static bool value_malformed(const std::string& v) { for (char c : v) if ((unsigned char)c < 0x20 || (unsigned char)c > 0x7E) return true; return false; }
+static size_t capacity(const std::string& k) { return k.size() <= 8 ? 68 : (k.size() >= 67 ? 0 : 80 - (13 + k.size())); }
 static size_t encoded_len(const std::string& v) { size_t n = v.size(); for (char c : v) if (c == '\'') n++; return n; }
 
 typedef std::vector<std::pair<std::string, std::string>> Model;   // insertion-ordered (key, value)
 struct Expect { bool throws; bool ret; };
 static Expect model_write(Model& m, const std::string& k, const std::string& v) {
-  if (reserved(k) || key_malformed(k) || encoded_len(v) > capacity(k)) return {true, false};
+  if (reserved(k) || key_malformed(k) || value_malformed(v) || encoded_len(v) > capacity(k)) return {true, false};
   for (auto& e : m) if (e.first == k) { e.second = v; return {false, false}; }
   m.push_back({k, v}); return {false, true};
 }
@@ -79,7 +82,7 @@ static void compare(const Table& t, const Model& m, const std::string& where) {
 static void explore(bool populated, bool full) {
   std::string ck = populated ? "populated-table" : "empty-table"; H->hint(ck);
   std::vector<std::string> good = full ? std::vector<std::string>{"A", "ABCDEFG1", "LONGKEYNAME1"} : std::vector<std::string>{"A", "LONGKEYNAME1"};
-  std::vector<std::string> bad = {"ORDER7", "NAXIS", "TYPEX", "PERIOD0", "abc", "A_B", "A=LONGKEYNAM", "lowerlongkeyname", ""};
+  std::vector<std::string> bad = {"ORDER7", "NAXIS", "TYPEX", "PERIOD0", "abc", "A_B", "A=LONGKEYNAM", "lowerlongkeyname", "", " LEADINGBLANK", "TRAILINGBLANK ", std::string(67, 'K')};
   g_keys_all = good; g_keys_all.insert(g_keys_all.end(), bad.begin(), bad.end()); g_keys_all.push_back("ABSENT");
   std::vector<Val> vals = {{0, 42, 0, ""}, {1, 0, 0.5, ""}, {2, 0, 0, ""}, {2, 0, 0, "x"}, {2, 0, 0, "it's"}};
   if (full) { vals.push_back({0, -7, 0, ""}); vals.push_back({2, 0, 0, std::string(40, '\'')}); vals.push_back({2, 0, 0, "two  words "}); }
@@ -133,16 +136,67 @@ static void explore(bool populated, bool full) {
   std::string sample = "{\"table\":\"" + ck + "\",\"operations\":["; for (size_t i = 0; i < ops.size() && i < 12; i++) sample += std::string(i ? "," : "") + "\"" + vf::jesc(ops[i].label) + "\""; H->sample(sample + "]}");
 }
 
+
+// ---- space "cards": every key-length / character-class / value-length boundary in one step on a fresh populated table
+// (the BFS above keeps its alphabet small; the card-capacity rules switch at key length 8|9 and at the capacity of the card)
+static void run_card(uint64_t idx) {
+  static const int KL[] = {1, 2, 7, 8, 9, 10, 11, 20, 40, 65, 66, 67, 68, 80, 200};
+  static const char BADC[] = {0, ' ', '.', '-', '_', 'a', '=', '\'', '/', '\t', '\x01', '\x7f', '\xe9'};    // 0: clean key
+  static const vf::Radix R{15, 13, 3, 5, 6};
+  auto v = R.decode(idx);
+  int L = KL[v[0]]; char bc = BADC[v[1]]; int pos = v[2] == 0 ? 0 : (v[2] == 1 ? L / 2 : L - 1); int vl = v[3], qk = v[4];
+  if (bc == 0 && v[2] != 0) return;
+  if (L < 3 && v[2] == 1) return;
+  std::string key; for (int i = 0; i < L; i++) key += (char)((i % 7 == 6) ? '0' + (i % 10) : 'A' + (i * 5 + L) % 26);
+  if (bc) key[pos] = bc;
+  if (reserved(key)) return;
+  size_t cap = capacity(key);
+  long enc = vl == 0 ? 0 : (vl == 1 ? 1 : (long)cap + (vl - 3));   // 0, 1, cap-1, cap, cap+1 encoded characters
+  if (enc < 0) return;
+  std::string val;
+  if (qk == 0) val.assign(enc, 'v');
+  else if (qk == 1) { if (enc < 2) return; val = "'" + std::string(enc - 2, 'w'); }
+  else if (qk == 2) { if (enc % 2 || enc == 0) return; val.assign(enc / 2, '\''); }
+  else if (qk == 3) { if (enc < 2) return; val = " " + std::string(enc - 1, 'x'); }                       // leading blank is part of the value
+  else { if (enc < 1) return; val.assign(enc, 'y'); val[enc / 2] = qk == 4 ? '\t' : '\xe9'; }          // not printable ASCII: cannot be stored in a FITS header
+  std::string where = vf::fmt("[key-length=%d %s value-encoded-length=%ld(capacity %zu) quotes=%d key='%s']", L, bc ? vf::fmt("char-0x%02x-at-%d", bc, pos).c_str() : "clean", enc, cap, qk, key.c_str());
+  H->hint(where);
+  tg::TableSpec spec; spec.dims.push_back({2, tg::make_knots(tg::K_UNIFORM, 2, 8)}); spec.coeffs = tg::make_coeffs(1, spec.ncoeffs(), 3, 0);
+  Table t; tg::build(t, spec);
+  t.write_key("FIRST", 1);
+  Model m; model_write(m, "FIRST", "1");
+  Expect ex = model_write(m, key, val);
+  bool threw = false, ret = false; std::string msg;
+  try { ret = t.write_key(key.c_str(), val); } catch (std::exception& e) { threw = true; msg = e.what(); }
+  H->count("evaluations");
+  std::string kc = vf::fmt("key-length%s:%s", L <= 8 ? "<=8" : ">8", bc ? vf::fmt("char-0x%02x", bc).c_str() : "clean");
+  H->cls(std::string("card|") + (L <= 8 ? "short" : "long") + "|" + (bc ? "odd-char" : "clean") + "|" + (ex.throws ? "rejected" : "accepted"));
+  if (threw != ex.throws) { H->violation(ex.throws ? "write-that-must-be-rejected-was-accepted:" + kc + (encoded_len(val) > cap ? ":over-long-value" : (value_malformed(val) ? ":unprintable-value" : ":malformed-key")) : "legal-entry-rejected:" + kc, where + (threw ? " (" + msg + ")" : "")); if (threw) { m.clear(); model_write(m, "FIRST", "1"); } }
+  else if (!threw && ret != ex.ret) H->violation("return-value-differs-from-model:write", where);
+  g_keys_all = {"FIRST", key, "ABSENT"};
+  compare(t, m, where);
+  if (threw) return;
+  // every accepted entry survives a round trip
+  std::pair<void*, size_t> buf{nullptr, 0};
+  try { buf = t.write_fits_mem(); } catch (std::exception& e) { H->violation("accepted-entry-cannot-be-written:" + kc, where + " " + e.what()); return; }
+  Table u; try { u.read_fits_mem(buf.first, buf.second); } catch (std::exception& e) { free(buf.first); H->violation("accepted-entry-cannot-be-read-back:" + kc, where + " " + e.what()); return; }
+  free(buf.first);
+  if (threw != ex.throws) { m.clear(); model_write(m, "FIRST", "1"); model_write(m, key, val); m.push_back({key, val}); m.erase(std::unique(m.begin(), m.end()), m.end()); }
+  compare(u, m, where + " after round trip");
+  H->count("round_trips");
+}
+
 int main(int argc, char** argv) {
   vf::Harness h("C16", argc, argv);
   H = &h;
   h.meta("level", "model_checking");
-  h.meta("rule", "breadth-first search to a FIXPOINT over the auxiliary-key store of a real table (populated 1-d table, and an empty one): state = ordered list of (key, value without trailing blanks); operations: write_key of every (key, value) of the alphabet (accepted keys: short, 8-character, long/HIERARCH; values: int, double, empty string, short string, string with a quote, [thorough: negative int, 40 quotes, embedded blanks], the maximal length for the key and one more), write_key with 9 keys that must be rejected (reserved prefixes, lower case, punctuation, '=', empty), remove_key of present and absent keys, and a FITS round trip (write_fits_mem + read_fits_mem into a fresh table, continuing on it); because the value set is finite the search covers histories of every length; each transition replays the shortest history on a fresh object; oracle = insertion-ordered reference map stepped in lock-step: exceptions, return values, store size, key order, get_aux_value, string / int / double typed reads, C get_key / read_key, for every key of the alphabet after every transition");
+  h.meta("rule", "breadth-first search to a FIXPOINT over the auxiliary-key store of a real table (populated 1-d table, and an empty one): state = ordered list of (key, value without trailing blanks); operations: write_key of every (key, value) of the alphabet (accepted keys: short, 8-character, long/HIERARCH; values: int, double, empty string, short string, string with a quote, [thorough: negative int, 40 quotes, embedded blanks], the maximal length for the key and one more), write_key with 12 keys that must be rejected (reserved prefixes, lower case, punctuation, '=', empty, leading / trailing blank, 67 characters), remove_key of present and absent keys, and a FITS round trip (write_fits_mem + read_fits_mem into a fresh table, continuing on it); because the value set is finite the search covers histories of every length; each transition replays the shortest history on a fresh object; oracle = insertion-ordered reference map stepped in lock-step: exceptions, return values, store size, key order, get_aux_value, string / int / double typed reads, C get_key / read_key, for every key of the alphabet after every transition; space 'cards' (one step on a fresh populated table, then a round trip): key length in {1,2,7,8,9,10,11,20,40,65,66,67,68,80,200} x {clean, one character replaced at the first / middle / last position by blank . - _ a = ' / TAB 0x01 0x7f 0xe9} x value of encoded length {0, 1, capacity-1, capacity, capacity+1} x {plain, leading quote, all quotes, leading blank, embedded TAB, embedded 0xe9}: accepted exactly when the model accepts, store unchanged on rejection, every accepted entry found under its key with its value after write_fits_mem + read_fits_mem");
   h.meta("assumption", "key alphabet of 2 (quick) / 3 (thorough) accepted keys; value trailing blanks are not part of the state (the property allows a round trip to add them)");
   h.meta("require_states", "50");
   h.meta("deadline_quick", "900"); h.meta("deadline_thorough", "3000");
   h.timeout_s = 2400;
   bool full = h.thorough;
   h.add_space("stores", 2, [full](uint64_t i) { explore(i == 0, full); });
+  h.add_space("cards", 15ull * 13 * 3 * 5 * 6, run_card);
   return h.main();
 }
